@@ -956,3 +956,38 @@ impl CKBProtocolHandler for Relayer {
         );
     }
 }
+
+/// verif-hooks: thin public wrappers around the `pub(crate)` pre-checks the relay handlers run
+/// before `Relayer::reconstruct_block` (same functions, same arguments, nothing else).
+#[cfg(feature = "verif-hooks")]
+pub(crate) mod verif_hooks {
+    use crate::Status;
+    use ckb_types::{core, packed};
+
+    /// `CompactBlockVerifier::verify` as called by `CompactBlockProcess::execute`
+    pub fn compact_block_verify(block: &packed::CompactBlock) -> Status {
+        super::compact_block_verifier::CompactBlockVerifier::verify(block)
+    }
+
+    /// `BlockTransactionsVerifier::verify` as called by `BlockTransactionsProcess::execute`
+    pub fn block_transactions_verify(
+        block: &packed::CompactBlock,
+        indexes: &[u32],
+        transactions: &[core::TransactionView],
+    ) -> Status {
+        super::block_transactions_verifier::BlockTransactionsVerifier::verify(
+            block,
+            indexes,
+            transactions,
+        )
+    }
+
+    /// `BlockUnclesVerifier::verify` as called by `BlockTransactionsProcess::execute`
+    pub fn block_uncles_verify(
+        block: &packed::CompactBlock,
+        indexes: &[u32],
+        uncles: &[core::UncleBlockView],
+    ) -> Status {
+        super::block_uncles_verifier::BlockUnclesVerifier::verify(block, indexes, uncles)
+    }
+}
